@@ -1173,6 +1173,13 @@ buildCommand(BuildContext& context, ninja::Command* command) {
         // Get the result.
         BuildValue result = computeCommandResult(commandHash);
 
+        // An alias for a failed, skipped or missing input must not look like a
+        // successful input to its dependents (they would run on stale files
+        // when building past failures with -k).
+        if (shouldSkip) {
+          return ti.complete(BuildValue::makeSkippedCommand().toValue());
+        }
+
         // If any output is missing, then we always want to force the change to
         // propagate.
         bool forceChange = false;
